@@ -6,8 +6,8 @@ chk("C11", "proof",
     "the recorded triggers the region lies inside the root container with non-negative extent; equal settings find the same region "
     "whatever was added in between; and, by induction on the cue tree, parsing the printed text of any tree of text lines and "
     "b/i/u/c.classes/lang/v elements (any depth) yields exactly the span tree carrying each style on exactly the enclosed text; and, by "
-    "induction on the list of cues, a file of cue blocks (optional identifier, hours optional, any setting words, multi-line payloads) is "
-    "read as exactly one paragraph per cue with the printed begin/end as rationals, the selected region and the parsed payload. "
+    "induction on the list of cues, a file of cue blocks (optional identifier, hours optional, any setting words, zero or more payload lines) is "
+    "read as exactly one paragraph per cue that has a payload, with the printed begin/end as rationals, the selected region and the parsed payload. "
     "On every run the models are compared with the code on grammar-generated files (all combinations of representative cue "
     "settings in the thorough tier), mutated and corpus files, writer outputs under the 8 writer configurations and cue texts, and "
     "the specification (Spec/VttSpec.v: grammar + printer, styled/timed runs, region clauses) judges the code's own output.",
@@ -15,8 +15,8 @@ chk("C11", "proof",
     "harness mapping of ttconv objects to outcome literals; float geometry compared with the rational model within 1e-9; "
     "round(float(s)) taken as exact half-even rounding (<= 15 significant digits), \\d as ASCII; files read through io.StringIO; my "
     "reading of WebVTT in Spec/VttSpec.v.  Only compared, not proved: NOTE/STYLE/REGION skipping, timestamps, character references and ruby in cue text, "
-    "the S region clauses (mode/alignment/line edge) and the writer round trip.  Ten defects are recorded as findings "
+    "the S region clauses (mode/alignment/line edge) and the writer round trip.  Eight defects are recorded as findings "
     "(region never clamped, non-positive line numbers, vertical center, annotation `&`, timestamp span nesting, character references "
-    "without `;`, ruby structure, cue without payload, empty file, <rt> outside <ruby>), each with a refuted witness in Findings/C11.v.",
+    "without `;`, ruby structure, <rt> outside <ruby>; cue without payload and the empty file were repaired in /repo and are regression witnesses), each with a refuted witness in Findings/C11.v.",
     "Coq theorems (induction on token lists / cue trees, lra+field over Q) + regenerated tables + in-Coq differential run and S evaluation",
     "DESIGN.md section 5 C11")
